@@ -1,61 +1,79 @@
 ----------------------------- MODULE WireJudge -----------------------------
 (* Code -> spec: requests recorded at the loopback server / in the WSGI environ / in the ASGI scope are judged with   *)
-(* Wire's decoders.  One state per observation; the reporting invariant prints one verdict record each.               *)
+(* Wire's decoders.  The observation file holds tables (definitions, values, request contexts) and two lists:         *)
+(* `core` - what arrived where the case lives (request line, parameter header, cookie, body, content type) and        *)
+(* `env`  - the envelope (header names, configured headers, test-case id, Host).  One state per list entry; the        *)
+(* reporting invariant prints one verdict record for each.                                                             *)
 EXTENDS Wire, IOUtils
 Obs == JsonDeserialize(IOEnv.OBS_FILE)
-(* i = index of the judged observation (0 = none yet).  Two-level fan-out (block, then observation) so that TLC's workers *)
-(* judge the observations in parallel: successors of different block states are computed by different workers.         *)
-VARIABLES i, blk
+(* i = index of the judged entry (0 = none yet), mode = which list.  Two-level fan-out (block, then entry) so that TLC's *)
+(* workers judge in parallel: successors of different block states are computed by different workers.                    *)
+VARIABLES i, blk, mode
 NB == 64
 Dummy == El("body", NoDef, VPrim(PNull), 0, 0, "none")
-JInit == i = 0 /\ blk = 0 /\ el = Dummy
-JNext == \/ /\ blk = 0 /\ blk' \in 1..NB /\ i' = 0 /\ UNCHANGED el
-         \/ /\ blk > 0 /\ i = 0 /\ i' \in {j \in 1..Len(Obs) : (j % NB) + 1 = blk} /\ UNCHANGED <<blk, el>>
-JSpec == JInit /\ [][JNext]_<<i, blk, el>>
-o == Obs[i]
+JInit == i = 0 /\ blk = 0 /\ mode = "core" /\ el = Dummy
+JNext == \/ /\ blk = 0 /\ blk' \in 1..NB /\ i' = 0 /\ UNCHANGED <<el, mode>>
+         \/ /\ blk > 0 /\ i = 0 /\ i' \in {j \in 1..Len(Obs.core) : (j % NB) + 1 = blk} /\ UNCHANGED <<blk, el, mode>>
+         \/ /\ blk = 1 /\ i = 0 /\ i' \in 1..Len(Obs.env) /\ mode' = "env" /\ UNCHANGED <<blk, el>>
+JSpec == JInit /\ [][JNext]_<<i, blk, mode, el>>
+
+(* ---- core ---- *)
+o == Obs.core[i]
+cx == Obs.ctx[o.c]              \* kind, media, wantMethod, basePath, tmpl, wantCtype
+odef == Obs.defs[o.d]
+oval == Obs.vals[o.v]
 
 (* URL = base URL joined with the template: segments of the base path, then the template's segments *)
 VarSeg == <<123, 112, 125>>                           \* "{p}"
-WantSegs == NonEmpty(Split(o.basePath, cSLASH)) \o Tail(Split(o.tmpl, cSLASH))
+WantSegs == NonEmpty(Split(cx.basePath, cSLASH)) \o Tail(Split(cx.tmpl, cSLASH))
 GotSegs == Tail(Split(o.path, cSLASH))
 StructOK == /\ o.path # <<>> /\ Head(o.path) = cSLASH /\ Len(GotSegs) = Len(WantSegs)
-LiteralsOK == \A j \in 1..Len(WantSegs) : WantSegs[j] = VarSeg \/ Txt(GotSegs[j], o.pmode) = [t |-> WantSegs[j], bad |-> FALSE]
+LiteralsOK == \A j \in 1..Len(WantSegs) : WantSegs[j] = VarSeg \/ Txt(GotSegs[j], o.pm) = [t |-> WantSegs[j], bad |-> FALSE]
 VarIdx == CHOOSE j \in 1..Len(WantSegs) : WantSegs[j] = VarSeg
 HasVar == \E j \in 1..Len(WantSegs) : WantSegs[j] = VarSeg
-(* a path value outside the fragment (contains '/', empty, ...) changes the structure by definition: not judged *)
-UrlV == IF o.kind # "body" /\ o.def.loc = "path" /\ Fragment(o.def, o.val) # "T" THEN "U"
-        ELSE IF ~StructOK THEN "F:structure" ELSE IF ~LiteralsOK THEN "F:literal" ELSE IF o.gotHost # o.wantHost THEN "F:host" ELSE "T"
+(* When the parameter lives in the path, a wrong number of segments is the parameter's failure (its value swallowed or   *)
+(* added segments), reported under `param`; a path value outside the fragment changes the structure by definition.       *)
+InPath == cx.kind # "body" /\ odef.loc = "path"
+UrlV == IF InPath /\ Fragment(odef, oval) # "T" THEN "U"
+        ELSE IF ~StructOK THEN (IF InPath THEN "T" ELSE "F:structure")
+        ELSE IF ~LiteralsOK THEN "F:literal" ELSE "T"
 
-W == [seg |-> IF StructOK /\ HasVar THEN GotSegs[VarIdx] ELSE <<>>, pmode |-> o.pmode, query |-> o.query,
-      hpresent |-> o.hpresent, hval |-> o.hval, cpresent |-> o.cpresent, cookie |-> o.cookie]
-ParamV == IF o.kind = "body" THEN [v |-> "T", why |-> ""]
-          ELSE IF o.def.loc = "path" /\ ~StructOK THEN [v |-> "N", why |-> "structure"]
-          ELSE ParamVerdict(o.def, o.val, W, o.explicit)
+W == [seg |-> IF StructOK /\ HasVar THEN GotSegs[VarIdx] ELSE <<>>, pmode |-> o.pm, query |-> o.q,
+      hpresent |-> o.hp, hval |-> o.hv, cpresent |-> o.cp, cookie |-> o.ck]
+ParamV == IF cx.kind = "body" THEN [v |-> "T", why |-> ""]
+          ELSE IF odef.loc = "path" /\ ~StructOK
+               THEN (IF Fragment(odef, oval) # "T" THEN [v |-> "U", why |-> Fragment(odef, oval)] ELSE [v |-> "F", why |-> "structure"])
+          ELSE ParamVerdict(odef, oval, W, o.x)
 (* nothing else: no query string unless the parameter lives there *)
-ExtraV == IF (o.kind = "body" \/ o.def.loc # "query") /\ o.query # <<>> THEN "F" ELSE "T"
+ExtraV == IF (cx.kind = "body" \/ odef.loc # "query") /\ o.q # <<>> THEN "F" ELSE "T"
+MethodV == IF o.m = cx.wantMethod THEN "T" ELSE "F"
+CtypeV == IF o.ct = cx.wantCtype THEN "T" ELSE "F"
 
-Standard == {"host", "user-agent", "accept", "accept-encoding", "connection", "content-length", "content-type", "transfer-encoding"}
-Allowed == Standard \cup {"x-schemathesis-testcaseid"} \cup {o.conf[j].name : j \in 1..Len(o.conf)}
-             \cup (IF o.kind # "body" /\ o.def.loc = "header" THEN {"p"} ELSE {})
-             \cup (IF o.kind # "body" /\ o.def.loc = "cookie" THEN {"cookie"} ELSE {})
-HdrsV == IF \A j \in 1..Len(o.hnames) : o.hnames[j] \in Allowed THEN "T" ELSE "F"
-ConfV == IF \A j \in 1..Len(o.conf) : o.conf[j].present /\ o.conf[j].got = o.conf[j].want THEN "T" ELSE "F"
-IdV == IF o.gotId = o.wantId /\ o.wantId # "" THEN "T" ELSE "F"
-MethodV == IF o.method = o.wantMethod THEN "T" ELSE "F"
-CtypeV == IF o.ctype = o.wantCtype THEN "T" ELSE "F"
-
-BodyText == Utf8Decode(o.body)
-FormPairs == LET kv == QParts(o.body)
+BodyText == Utf8Decode(o.b)
+FormPairs == LET kv == QParts(o.b)
                  ks == Dec([j \in 1..Len(kv) |-> kv[j].a], "form")
                  vs == Dec([j \in 1..Len(kv) |-> kv[j].b], "form")
              IN  {[k |-> "obj", keys |-> x, items |-> y] : x \in ks, y \in vs}
-BodyV == CASE o.media = "none" -> IF o.body = <<>> THEN "T" ELSE "F"
-           [] o.media = "json" -> LET j == JsonParse(BodyText.t)
-                                  IN  IF ~BodyText.bad /\ j.ok /\ SameTyped(j.val, o.val) THEN "T" ELSE "F"
-           [] o.media = "form" -> IF \E j \in 1..Len(o.val.items) : o.val.items[j].t \in {"bool", "null"} THEN "U"
-                                  ELSE IF In(FormPairs, Expected(o.val)) THEN "T" ELSE "F"
-           [] OTHER -> IF ~BodyText.bad /\ BodyText.t = Coerce(o.val.items[1]) THEN "T" ELSE "F"
+BodyV == CASE cx.media = "none" -> IF o.b = <<>> THEN "T" ELSE "F"
+           [] cx.media = "json" -> LET j == JsonParse(BodyText.t)
+                                   IN  IF ~BodyText.bad /\ j.ok /\ SameTyped(j.val, oval) THEN "T" ELSE "F"
+           [] cx.media = "form" -> IF \E j \in 1..Len(oval.items) : oval.items[j].t \in {"bool", "null"} THEN "U"
+                                   ELSE IF In(FormPairs, Expected(oval)) THEN "T" ELSE "F"
+           [] OTHER -> IF ~BodyText.bad /\ BodyText.t = Coerce(oval.items[1]) THEN "T" ELSE "F"
 
-Report == i = 0 \/ PrintT(<<"V", ToJson([i |-> i, url |-> UrlV, param |-> ParamV.v, why |-> ParamV.why, extra |-> ExtraV, hdrs |-> HdrsV,
-                                conf |-> ConfV, id |-> IdV, method |-> MethodV, ctype |-> CtypeV, body |-> BodyV])>>)
+(* ---- envelope ---- *)
+e == Obs.env[i]
+Standard == {"host", "user-agent", "accept", "accept-encoding", "connection", "content-length", "content-type", "transfer-encoding"}
+Allowed == Standard \cup {"x-schemathesis-testcaseid"} \cup {e.conf[j].name : j \in 1..Len(e.conf)}
+             \cup (IF e.loc = "header" THEN {"p"} ELSE {}) \cup (IF e.loc = "cookie" THEN {"cookie"} ELSE {})
+HdrsV == IF \A j \in 1..Len(e.hnames) : e.hnames[j] \in Allowed THEN "T" ELSE "F"
+ConfV == IF \A j \in 1..Len(e.conf) : e.conf[j].present /\ e.conf[j].got = e.conf[j].want THEN "T" ELSE "F"
+IdV == IF e.gotId = e.wantId /\ e.wantId # "" THEN "T" ELSE "F"
+HostV == IF e.gotHost = e.wantHost THEN "T" ELSE "F"
+
+Report == IF i = 0 THEN TRUE
+          ELSE IF mode = "core"
+          THEN PrintT(<<"V", ToJson([i |-> i, url |-> UrlV, param |-> ParamV.v, why |-> ParamV.why, extra |-> ExtraV,
+                                     method |-> MethodV, ctype |-> CtypeV, body |-> BodyV])>>)
+          ELSE PrintT(<<"E", ToJson([i |-> i, hdrs |-> HdrsV, conf |-> ConfV, id |-> IdV, host |-> HostV])>>)
 =============================================================================
